@@ -95,6 +95,8 @@ def c13(tier, seed):
         ucases += step_cases(['mem'], 'U8', ALL_OPS, ['C13'], tier, seed, dlens=[1], max_shapes=200)
         ucases += step_cases(['mem'], 'U5', ALL_OPS, ['C13'], tier, seed, dlens=[1], release=True)
     ck.add(run_cases(prog, onestep.run_step_case, ucases), 'every operation (wrong types, root, composites) on every path from every well-formed tree')
+    scases = step_cases(['mem'] if tier == 'quick' else ['mem', 'alt:/a'], 'USYM', ALL_OPS, ['C13'], tier, seed, dlens=[1])
+    ck.add(run_cases(prog, onestep.run_step_case, scases), 'same in symbolic-name mode (names are solver variables incl. multi-byte characters; siblings may be prefixes of each other)')
     rc = reader_cases(tier, 'C13') + reader_cases(tier, 'C13', release=True)
     ck.add(run_cases(prog, handles.run_reader_case, rc), 'reader scripts with any 64-bit offset, zero-length buffers; dev and release arithmetic')
     ck.add(run_cases(prog, handles.run_writer_case, writer_cases(tier, 'C13')), 'writer sessions')
@@ -269,7 +271,7 @@ def writer_cases(tier, prop_):
         if tier != 'quick':
             seqs += [('append', 'create'), ('create', 'create'), ('create', 'append', 'append')]
         for modes in seqs:
-            kk = k if (cfg == 'mem' and len(modes) == 1) else max(1, k - 1)
+            kk = (k + 1 if tier == 'quick' else k) if (cfg == 'mem' and len(modes) == 1) else max(1, k - 1)
             if len(modes) == 3:
                 kk = 1
             cases.append({'cfg': cfg, 'k': kk, 'sessions': len(modes), 'modes': modes, 'prop': prop_, 'pre': 2})
